@@ -452,6 +452,10 @@ pub fn run_thread(w: Rc<World>, body: usize) {
     }
 }
 
+fn raw_layout() -> loom::alloc::Layout {
+    loom::alloc::Layout::from_size_align(1000, 8).unwrap()
+}
+
 fn exec_op(w: &Rc<World>, tid: usize, op: &Op) -> Ret {
     match op {
         Op::Ld(x, ..)
@@ -755,13 +759,15 @@ fn exec_op(w: &Rc<World>, tid: usize, op: &Op) -> Ret {
             Ret::Unit
         }
         Op::Alloc(k) => {
-            let p = unsafe { loom::alloc::alloc(loom::alloc::Layout::new::<u64>()) };
+            // (an unusual size class: a block freed by `dealloc` is handed out again by the next `alloc` and by
+            // nothing in between, so "a block at a recycled address" is exercised deterministically)
+            let p = unsafe { loom::alloc::alloc(raw_layout()) };
             w.raws.borrow_mut().insert(*k, p);
             Ret::Unit
         }
         Op::Dealloc(k) => {
             let p = w.raws.borrow_mut().remove(k).expect("harness: dealloc of empty slot");
-            unsafe { loom::alloc::dealloc(p, loom::alloc::Layout::new::<u64>()) };
+            unsafe { loom::alloc::dealloc(p, raw_layout()) };
             Ret::Unit
         }
         Op::Tls(_) | Op::TlsTry(_) | Op::Lazy(_) | Op::TlsNest(..) | Op::TlsStat(_) | Op::TlsObs(_) | Op::LazyStat(_) => {
